@@ -304,6 +304,8 @@ fn op_kind(o: &Op) -> u8 {
         Op::AppAckBig { .. } => 184,
         Op::AppAckSoft { .. } => 185,
         Op::PeerPubAfterClose { qos, .. } => 186 + qos,
+        Op::PartialConnectLoss { .. } => 190,
+        Op::PartialThenTimer { k, .. } => 191 + k.ix() as u8,
         Op::Advance { .. } => 121,
         Op::Close { partial } => 122 + (*partial != 0) as u8,
         Op::Crash => 124,
